@@ -344,6 +344,9 @@ def lzdecoder_replay(ctx, kind, consts, n_behaviours, seed, name="", sig_base=No
                           dict(sig, outcome="replay_mismatch"), replay)
         if r.get("events") is not None:
             stats["events_runs"].append(r["events"])
+            fl = [e for e in r["events"] if e.get("op") == "flush"]
+            stats["split_matches"] += sum(1 for e in fl if e["plen"] > 0)
+            stats["wraps"] += sum(1 for e in fl if e["pos"] == 0 and e["copied"] > 0)
     return stats
 
 
@@ -370,11 +373,15 @@ def validate_lzdecoder(ctx, runs, name=""):
         lines += ls
     if not lines:
         return {"accepted": True, "reached": 0, "total": 0, "runs": 0}
-    ok, reached, total, r = core.validate_events("Trace_LzDecoder", {}, lines, timeout=900)
+    ok, reached, total, r = core.validate_events("Trace_LzDecoder", {}, lines, invariants=("Track", "Ring"), timeout=900)
     if ctx is not None:
         ctx.note_tlc("trace LzDecoder " + name, r)
     res = {"accepted": ok, "reached": reached, "total": total, "tlc": r, "runs": len(runs), "events": len(lines)}
     if not ok:
         res["next_event"] = lines[reached] if reached is not None and reached < len(lines) else None
         res["violated"] = r.violated
+        if r.violated and r.violated != "postcondition" and r.trace:
+            res["state"] = r.trace[-1]["vars"]
+            res["reached"] = len(r.trace) - 2
+            res["next_event"] = lines[res["reached"]] if 0 <= res["reached"] < len(lines) else None
     return res
